@@ -11,6 +11,7 @@ import GldapModel.Spec.ClientEncode
 import GldapModel.Gldap.Session
 import GldapModel.Directory.BindSession
 import Driver.ServerReplay
+import GldapModel.Gldap.Addr
 /-! `gmodel`: one line in, one line out. The Go harness feeds the same cases to the real
     gldap and to this driver and diffs the two output streams. -/
 open Ber Gldap Driver
@@ -457,6 +458,16 @@ def handle (line : String) : String :=
   | "trace" :: "writer" :: evs => match evs.mapM parseEv with
     | some es => doTraceWriter es
     | none => "bad-input"
+  | ["addr", a, pat, pah, res, pip] =>
+    match unhex a, (stripPrefix pat "pat=").bind parseBool, (stripPrefix pah "pah=").bind parseBool,
+          (stripPrefix res "res=").bind parseBool, (stripPrefix pip "pip=").bind parseBool with
+    | some a, some pat, some pah, some res, some pip =>
+      let host := match Addr.lastIdx Addr.colon a with | some i => a.take i | none => []
+      let env : Addr.AddrEnv := { parseAddr := fun x => if x == host then pah else pat, resolves := fun _ => res, parseIP := fun _ => pip }
+      (match Addr.validateAddrPort env a with
+       | some out => s!"ok {hex out}"
+       | none => "err")
+    | _, _, _, _, _ => "bad-input"
   | "trace" :: "server" :: evs => match evs.mapM parseEv with
     | some es => ServerReplay.replay Generated.serverFacts (es.map fun e => ⟨e.label, e.conn, e.req⟩)
     | none => "bad-input"
